@@ -229,6 +229,11 @@ def rule_match(ctx: Ctx, rule: str = "C01.match"):
         for p in ctx.paths(it):
             rep.check(p.kind == "return" and show(expand(p.value, p.events)) == "iter(self._items)", rule, it.loc(),
                       "iterating an Events collection yields its stored items", it.key, f"return {show(p.value)}")
+    em_paths = list(ctx.paths(em, unroll=2))
+    if em_paths and all(p.kind == "return" and isinstance(p.value, ast.Constant) and isinstance(p.value.value, bool) for p in em_paths) \
+            and any(e.kind == "iter" for p in em_paths for e in p.events):
+        _match_loop_form(ctx, rule, em, em_paths, param)
+        return
     for p in ctx.paths(em):
         if p.kind != "return":
             rep.violation(rule, em.loc(), "Events.match does not return a verdict", em.key, p.kind)
@@ -242,6 +247,55 @@ def rule_match(ctx: Ctx, rule: str = "C01.match"):
                           "so one event id can fire another event's transitions", em.key, f"return {show(v)}")
         else:
             rep.unrecognised(rule, em.loc(), f"match expression `{show(v)}` is neither the accepted equality-membership idiom nor a known violating form")
+
+
+def _match_loop_form(ctx: Ctx, rule: str, em, paths, param: str):
+    """Events.match written as an explicit search loop returning True / False."""
+    rep = ctx.rep
+    n_true = n_false = 0
+    for p in paths:
+        evs = p.events
+        its = [e for e in evs if e.kind == "iter" and e.x.get("loop") == "for"]
+        for i in its:
+            if xshow(i.term, evs) not in ("self", "self._items", "iter(self._items)", "list(self)", "list(self._items)"):
+                rep.unrecognised(rule, i.loc(), f"Events.match searches `{xshow(i.term, evs)}`")
+        pols = []
+        for b in p.of("branch"):
+            t = expand(b.term, evs)
+            pol = b.x["taken"]
+            while isinstance(t, ast.UnaryOp) and isinstance(t.op, ast.Not):
+                t, pol = t.operand, not pol
+            elems = {show(i.x["elem"]) for i in its if i.idx < b.idx}
+            shape = "other"
+            if any(isinstance(n, ast.Call) and isinstance(n.func, ast.Attribute) and n.func.attr in PARTIAL_STR_OPS for n in ast.walk(t)) or \
+                    any(isinstance(n, ast.Subscript) and isinstance(n.slice, ast.Slice) for n in ast.walk(t)):
+                shape = "partial"
+            elif isinstance(t, ast.Compare) and len(t.ops) == 1:
+                sides = {show(t.left), show(t.comparators[0])}
+                if param in sides and (sides - {param}) <= elems and len(sides) == 2:
+                    if isinstance(t.ops[0], ast.Eq):
+                        shape = "eq"
+                    elif isinstance(t.ops[0], ast.NotEq):
+                        shape, pol = "eq", not pol
+                    elif isinstance(t.ops[0], (ast.In, ast.NotIn)):
+                        shape = "partial"
+            if shape == "partial":
+                rep.violation(rule, b.loc(), "event matching uses a partial string operation (prefix/substring), "
+                              "so one event id can fire another event's transitions", em.key, norm_stmt(b.node))
+                return
+            if shape == "other":
+                rep.unrecognised(rule, b.loc(), f"match loop tests `{show(t)}`: neither the accepted equality idiom nor a known violating form")
+            pols.append(pol)
+        if p.value.value is True:
+            n_true += 1
+            rep.check(bool(pols) and pols[-1] is True, rule, em.loc(), "match answers True only when a stored event id equals the given id", em.key,
+                      f"return True after tests {pols}")
+        else:
+            n_false += 1
+            rep.check(not any(pols), rule, em.loc(), "match answers False only when no stored event id equals the given id", em.key,
+                      f"return False after tests {pols}")
+    rep.check(n_true > 0 and n_false > 0, rule, em.loc(), "an event matches only by equality with a stored event id", em.key,
+              f"{n_true} accepting / {n_false} rejecting paths")
 
 
 PARTIAL_STR_OPS = {"startswith", "endswith", "find", "rfind", "index", "count", "partition", "split", "lower", "upper",
